@@ -59,6 +59,38 @@ def parse_position(cmd):
     return None
 
 
+def parse_info(line):
+    """Fields of one UCI `info` line that the monitors use: depth, score (cp, or mate mapped into the mate range), pv
+    (always the last field).  Unknown fields are skipped; a truncated line yields what was complete."""
+    toks = line.split()
+    out = {}
+    i = 1
+    while i < len(toks):
+        t = toks[i]
+        if t == "pv":
+            out["pv"] = toks[i + 1:]
+            break
+        if t == "string":
+            break
+        if t == "depth":
+            try:
+                out["depth"] = int(toks[i + 1])
+            except (ValueError, IndexError):
+                out["depth"] = -1
+            i += 2
+            continue
+        if t == "score" and i + 2 < len(toks) and toks[i + 1] in ("cp", "mate"):
+            try:
+                v = int(toks[i + 2])
+                out["cp"] = v if toks[i + 1] == "cp" else (32000 - abs(v)) * (1 if v > 0 else -1)
+            except ValueError:
+                pass
+            i += 3
+            continue
+        i += 1
+    return out
+
+
 def run(binary, steps, env=None, settle=3.0, final_stop=True):
     """Run one session; returns the list of events (dicts)."""
     s = uci.Session(binary, env=env)
@@ -75,18 +107,15 @@ def run(binary, steps, env=None, settle=3.0, final_stop=True):
             if line.startswith("bestmove"):
                 toks = line.split()
                 events.append({"ev": "best", "move": toks[1] if len(toks) > 1 else "", "t": int(t * 1000)})
-            elif line.startswith("info pv"):
-                events.append({"ev": "pv", "line": line.split()[2:]})
-            elif line.startswith("info depth "):
-                try:
-                    events.append({"ev": "depth", "d": int(line.split()[2])})
-                except (ValueError, IndexError):
-                    events.append({"ev": "depth", "d": -1})
-            elif line.startswith("info score cp "):
-                try:
-                    events.append({"ev": "score", "cp": int(line.split()[3])})
-                except (ValueError, IndexError):
-                    pass
+            elif line.startswith("info"):
+                # any standard UCI info line: the engine's one-field-per-line form or several fields on one line
+                f = parse_info(line)
+                if "depth" in f:
+                    events.append({"ev": "depth", "d": f["depth"]})
+                if "cp" in f:
+                    events.append({"ev": "score", "cp": f["cp"]})
+                if "pv" in f:
+                    events.append({"ev": "pv", "line": f["pv"]})
         return lines
 
     def fence(target=None):
